@@ -2,7 +2,7 @@
 import copy
 from .. import tlc, gen, common, scn_replay
 
-OPS = '{"RegMgr","Register","Run","RestRun","SetProp","Begin","BeginWide","BeginMgrs","Step","End","ResetCache"}'
+OPS = '{"RegMgr","Register","Run","RestRun","SetProp","Begin","BeginWide","BeginMgrs","Step","End","ResetCache"}'       # (ReRegister only in bounded families: every re-registration allocates a new dictionary object)
 
 
 def consts(mgrs='{"m1","m2"}', scs='{"a","b"}', kv='{0,3,5}', tabs='{"","B","C"}', rss='{"","r1","r2"}', dev='{}', ops=OPS):
@@ -48,6 +48,13 @@ def run(tier, replay_file=None):
                              extra_cfg={"action_constraints": ["MC_Wide2"]})
     bfs = bfs + (wide2 if not quick else __import__("random").Random(common.seed() + 1).sample(wide2, min(len(wide2), 120)))
     R.cov["two_manager_session_histories"] = len(wide2)
+    # a scenario name registered a second time with other settings (after it was run): every such history
+    rereg, _ = gen.histories("Scenario", consts('{"m1"}', '{"a"}', kv='{0,3}', tabs='{"","B"}', rss='{"","r1"}',
+                                                ops='{"RegMgr","Register","ReRegister","Run"}'), 5,
+                             defs='MC_ReReg == LET n == Len(hist) IN /\\ (n = 0 => hist\'[1].op = "RegMgr") /\\ (n \\in {1, 3} => hist\'[n + 1].op = "Register") /\\ (n \\in {2, 4} => hist\'[n + 1].op = "Run")\n',
+                             extra_cfg={"action_constraints": ["MC_ReReg"]})
+    bfs = bfs + (rereg if not quick else __import__("random").Random(common.seed() + 2).sample(rereg, min(len(rereg), 150)))
+    R.cov["reregistration_histories"] = len(rereg)
     R.cov["bfs_histories"], R.cov["sim_histories"] = len(bfs), len(sets)
     probes = 0
     for hist in bfs + sets:
